@@ -30,7 +30,8 @@ def frames(tables, idx):
 
 def risk_case(item):
     bt = rt.bt()
-    shape, mult, positions, variant, history, ndate = item
+    shape, mult, positions, variant, history, ndate = item[:6]
+    close_after = item[6] if len(item) > 6 else None
     spec = {"shape": shape, "integer": False, "capital": 1024.0, "mult": mult}
     if shape == "T2":
         spec["prefund"] = [[[], "s1", 256.0], [[], "s2", 128.0]]
@@ -62,6 +63,13 @@ def risk_case(item):
                     t.apply(["transact", path, k, q])
         for m in tables:
             algos[m](t.root)
+        if close_after is not None and di == close_after:
+            # positions closed AFTER this date's risk update: the next update must see them flat
+            for (path, k), q in zip(secs, positions):
+                if q != 0.0:
+                    t.apply(["transact", path, k, -q])
+                    break
+            continue
         # reference aggregation
         now_i = t.i
         for m in tables:
@@ -250,6 +258,67 @@ def close_roll_case(item):
     return (1, viols[:5], len(viols))
 
 
+def chain_case(item):
+    """chained / converging / swapping rolls stepped by hand: whatever the order of the children and
+    of the roll table, every position that matured before a call moves into its target at its
+    factor exactly once, on the quantities held before the call"""
+    bt = rt.bt()
+    A = bt.algos
+    fi, order, graph, mature, factors, row_order = item[:6]
+    closes = item[6] if len(item) > 6 else {}
+    pretrade = item[7] if len(item) > 7 else None
+    integer = bool(item[8]) if len(item) > 8 else False
+    idx = pd.bdate_range("2020-01-06", periods=5)
+    data = pd.DataFrame({"c1": [1.0, 1.0, 2.0, 1.0, 0.5], "c2": [2.0, 2.0, 1.0, 2.0, 2.0], "c3": [1.0, 2.0, 1.0, 1.0, 2.0]}, index=idx, dtype=float)
+    srcs = [k for k in row_order if k in graph]
+    roll_data = pd.DataFrame({k: {"date": idx[mature[k]], "target": graph[k], "factor": factors[k]} for k in srcs}).T
+    kids = [(bt.FixedIncomeSecurity if fi else bt.Security)(n) for n in order]
+    close_data = pd.DataFrame({"date": [idx[v] for v in closes.values()]}, index=list(closes)) if closes else pd.DataFrame({"date": pd.to_datetime([])})
+    s = (bt.FixedIncomeStrategy if fi else bt.Strategy)("r", [A.ClosePositionsAfterDates("closes"), A.RollPositionsAfterDates("rolls")], children=kids)
+    # (whole-unit mode: quantities booked by transact / rolls are fractional all the same, and a
+    # close-out closes them exactly)
+    s.use_integer_positions(integer)
+    s.setup(data, rolls=roll_data, closes=close_data)
+    s.adjust(4096.0)
+    s.update(idx[0])
+    ref = {"c1": 8.0, "c2": 16.0, "c3": -4.0}
+    if integer:
+        ref = {"c1": 8.5, "c2": 16.25, "c3": -4.75}
+    viols = []
+    try:
+        for k in order:
+            s.transact(ref[k], k)
+        s.update(idx[0])
+        done = set()
+        closed = set()
+        for i in range(1, len(idx)):
+            s.update(idx[i])
+            if pretrade is not None:
+                # a trade earlier in the same step that only marks the tree stale
+                s.transact(pretrade[1], pretrade[0])
+                ref[pretrade[0]] += pretrade[1]
+            s.run()
+            for k in closes:
+                if k not in closed and closes[k] <= i:
+                    closed.add(k)
+                    ref[k] = 0.0
+            pre = dict(ref)
+            for k in srcs:
+                if k not in done and mature[k] <= i:
+                    done.add(k)
+                    ref[k] -= pre[k]
+                    ref[graph[k]] += factors[k] * pre[k]
+            got = {k: float(s[k].position) for k in order}
+            if any(abs(got[k] - ref[k]) > 1e-9 for k in order):
+                viols.append({"rule": "positions_after_close_and_roll", "expected": {"date": str(idx[i]), "positions": dict(ref), "positions_before_call": pre}, "observed": got})
+                break
+    except Exception as e:
+        if rt.classify(e) == "guard":
+            return (1, [], 0)
+        return (1, [{"rule": "crash", "observed": rt.describe(e)}], 1)
+    return (1, viols, len(viols))
+
+
 def replay(case):
     k = case["kind"]
     w = case["where"]
@@ -257,11 +326,13 @@ def replay(case):
         return risk_case(tuple(w))[1]
     if k == "hedge":
         return hedge_case((tuple(w[0]), tuple(w[1]), w[2], w[3], tuple(w[4]), w[5], w[6]))[1]
+    if k == "chain":
+        return chain_case((w[0], tuple(w[1]), dict(w[2]), dict(w[3]), dict(w[4]), tuple(w[5]), dict(w[6]), tuple(w[7]) if w[7] else None, w[8] if len(w) > 8 else False))[1]
     return close_roll_case((w[0], w[1], {k2: tuple(v) for k2, v in w[2].items()}, w[3], w[4]))[1]
 
 
 def run(ctx):
-    ctx.rule = "trees T1/T2 x multipliers x positions {0,4,-2} per security x unit-risk tables with a missing column per measure x history depth x dates; hedges with as many / fewer / more instruments than measures x instrument multiplier; every assignment of close and roll dates to two securities in real backtests; a case is non-trivial if it was executed with at least one open position"
+    ctx.rule = "trees T1/T2 x multipliers x positions {0,4,-2} per security x unit-risk tables with a missing column per measure x history depth x dates; hedges with as many / fewer / more instruments than measures x instrument multiplier; every assignment of close and roll dates to two securities in real backtests; chained, converging and swapping rolls x child order x roll-table order x maturity dates x factors stepped by hand; a case is non-trivial if it was executed with at least one open position"
     ctx.assumptions += ["missing unit-risk column counts as zero", "HedgeRisks without pseudo-inverse is only judged with as many independent instruments as measures"]
     kinds = ["py"] if ctx.tier == "quick" else ["py", "cy"]
     risk = []
@@ -273,6 +344,8 @@ def run(ctx):
                 for variant in (0, 1):
                     for history in (0, 1, 2):
                         risk.append((shape, mult, positions, variant, history, 2))
+                    if any(q != 0.0 for q in positions):
+                        risk.append((shape, mult, positions, variant, 1, 3, 1))
     hedge = []
     for measures in (("M1",), ("M2",), ("M1", "M2")):
         for instruments in (("h1",), ("h2",), ("h1", "h2"), ("h1", "h2", "h3"), ("h3", "h1")):
@@ -296,7 +369,31 @@ def run(ctx):
             for w1 in whens[1:6]:
                 for w2 in whens[1:6]:
                     cr.append((fi, {"c1": w1}, {"c2": (w2, "n2")}, 2.0, sa))
-    ctx.bounds = {"risk_cases": len(risk), "hedge_cases": len(hedge), "close_roll_cases": len(cr), "builds": kinds}
+    chain = []
+    graphs = [{"c2": "c1", "c1": "c3"}, {"c1": "c2", "c2": "c3"}, {"c1": "c3", "c2": "c3"}, {"c1": "c2", "c2": "c1"}, {"c3": "c1"}]
+    for fi in (False, True):
+        for order in itertools.permutations(("c1", "c2", "c3")):
+            for g in graphs:
+                ks = sorted(g)
+                for ms in itertools.product((0, 1, 2, 3), repeat=len(ks)):
+                    for fs in ((1.0,) * len(ks), (0.5, 2.0)[: len(ks)]):
+                        for ro in (tuple(ks), tuple(reversed(ks))):
+                            if len(ks) == 1 and ro != tuple(ks):
+                                continue
+                            chain.append((fi, order, g, dict(zip(ks, ms)), dict(zip(ks, fs)), ro, {}, None))
+        # closes next to rolls, and a same-step trade before the stack that only marks the tree stale
+        for order in (("c1", "c2", "c3"), ("c3", "c2", "c1")):
+            for g in graphs[:1] + graphs[4:] + [{}]:
+                ks = sorted(g)
+                for ms in itertools.product((1, 3), repeat=len(ks)):
+                    for cl in ({"c2": 1}, {"c2": 2, "c3": 2}, {"c1": 3}, {"c3": 1}):
+                        if any(k in g for k in cl):
+                            continue
+                        for pre in (None, ("c2", 4.0), ("c3", -2.0), ("c1", -12.0)):
+                            chain.append((fi, order, g, dict(zip(ks, ms)), dict(zip(ks, (0.5, 2.0))), tuple(ks), cl, pre))
+                            if pre is None or pre[0] == "c2":
+                                chain.append((fi, order, g, dict(zip(ks, ms)), dict(zip(ks, (0.5, 2.0))), tuple(ks), cl, pre, True))
+    ctx.bounds = {"chain_roll_cases": len(chain), "risk_cases": len(risk), "hedge_cases": len(hedge), "close_roll_cases": len(cr), "builds": kinds}
     for kind in kinds:
         for item, (n, viols, nv) in ctx.run(kind, MOD, "risk_case", risk, chunksize=8):
             ctx.add(states=1, transitions=n, traces_validated_against_impl=n, evaluations=n)
@@ -314,6 +411,11 @@ def run(ctx):
             ctx.nontrivial_count += 1
             for v in viols:
                 ctx.violation(dict(v, build=kind, module=MOD, case={"kind": "close_roll", "where": [item[0], item[1], {k: list(x) for k, x in item[2].items()}, item[3], item[4]]}))
+        for item, (n, viols, nv) in ctx.run(kind, MOD, "chain_case", chain, chunksize=16):
+            ctx.add(states=1, transitions=4 * n, traces_validated_against_impl=n, evaluations=4 * n)
+            ctx.nontrivial_count += 1
+            for v in viols:
+                ctx.violation(dict(v, build=kind, module=MOD, case={"kind": "chain", "where": [item[0], list(item[1]), item[2], item[3], item[4], list(item[5]), item[6], list(item[7]) if item[7] else None, item[8] if len(item) > 8 else False]}))
     ctx.sample({"risk_case": [str(x) for x in risk[len(risk) // 2]]})
     ctx.sample({"hedge_case": [str(x) for x in hedge[len(hedge) // 2]]})
     ctx.sample({"close_roll_case": [str(x) for x in cr[len(cr) // 2]]})
